@@ -176,6 +176,15 @@ func GenABCfg(rng *sim.Rand, tier string, prop string) ABCfg {
 			c.Bytes = append(c.Bytes, rng.Range(1, maxBytes))
 		}
 	}
+	if c.MTU <= 128 {
+		// (with timestamps and SACK blocks a 68-byte path leaves one byte of payload per segment - finding
+		// F17: a transfer of hundreds of kilobytes would be hundreds of thousands of frames in one instant)
+		for i := range c.Bytes {
+			if c.Bytes[i] > 60000 {
+				c.Bytes[i] = 60000
+			}
+		}
+	}
 	c.ISSMode = rng.Pick(5, 1, 1, 1, 1)
 	c.ISSBack = rng.Intn(4000)
 	if rng.Chance(0.3) {
